@@ -270,6 +270,12 @@ func probeDecode(o *Out, data []byte) {
 				full[i] = 0xFF
 			}
 			trimmed := bytes.Trim(data, jsonWs)
+			// the same tree seen from C03: an untouched tree reproduces the spans that were parsed, at every node, whatever the caller
+			// does with its own buffer afterwards
+			o.Check("C03", "spans-after-caller-reuse")
+			if where, wantSrc, gotSrc := sourcesDiffer(root, safeRoot, 0); where != "" {
+				o.Fail("C03", "spans-after-caller-reuse", "after the caller reused the slice it gave to UnmarshalSafe, Source()/Marshal/String of the untouched tree at "+where+" is no longer the span that was parsed", hexIn, wantSrc, gotSrc)
+			}
 			if !bytes.Equal(safeRoot.Source(), trimmed) {
 				o.Fail("C18", "safe-independent", "after the caller overwrote its slice, Source() of a tree from UnmarshalSafe changed", hexIn, hexOrDash(trimmed), hexOrDash(safeRoot.Source()))
 			} else if out, merr := ajson.Marshal(safeRoot); merr != nil || !bytes.Equal(out, trimmed) {
@@ -334,6 +340,34 @@ func probeDecode(o *Out, data []byte) {
 	if out, err := ajson.Marshal(root); err != nil || !bytes.Equal(out, trimmed) {
 		o.Fail("C03", "marshal-is-a-copy", "after appending to earlier Marshal results, Marshal(root) is no longer the source text", hexIn, hexOrDash(trimmed), hexOrDash(out))
 	}
+}
+
+// sourcesDiffer walks two trees parsed from the same text in step and reports the first position at which Source(), Marshal or
+// String of the second differ from Source() of the first.
+func sourcesDiffer(a, b *ajson.Node, depth int) (where, want, got string) {
+	if depth > 64 {
+		return
+	}
+	src := a.Source()
+	if !bytes.Equal(b.Source(), src) {
+		return a.Path() + " (Source)", hexOrDash(src), hexOrDash(b.Source())
+	}
+	if out, err := ajson.Marshal(b); err != nil || !bytes.Equal(out, src) {
+		return a.Path() + " (Marshal)", hexOrDash(src), fmt.Sprint(hexOrDash(out), err)
+	}
+	if b.String() != string(src) {
+		return a.Path() + " (String)", hexOrDash(src), hexOrDash([]byte(b.String()))
+	}
+	ka, kb := a.Inheritors(), b.Inheritors()
+	if len(ka) != len(kb) {
+		return a.Path() + " (children)", fmt.Sprint(len(ka)), fmt.Sprint(len(kb))
+	}
+	for i := range ka {
+		if w, x, y := sourcesDiffer(ka[i], kb[i], depth+1); w != "" {
+			return w, x, y
+		}
+	}
+	return
 }
 
 // viablePrefix: p is a prefix of some JSON text. Decided with encoding/json's scanner: feed p, then
@@ -677,6 +711,7 @@ func streamDecode(o *Out, r *Rng, tier string) {
 	for _, w := range decodeCorpus {
 		one([]byte(w), true)
 	}
+	safe("reading strings with \\u escapes", nil, func() string { escapeSweep(o, one); return "" })
 	// the three literals in every mix of upper and lower case, alone, padded and inside containers: only the all-lower-case
 	// spelling is JSON
 	for _, lit := range []string{"true", "false", "null"} {
@@ -710,6 +745,46 @@ func streamDecode(o *Out, r *Rng, tier string) {
 	}
 	for k, v := range g.Stats {
 		o.meta.Stats["gen."+k] = v
+	}
+}
+
+// escapeSweep: EVERY \uXXXX escape (all 65536 code units, lower- and upper-case hex), in a value (decoded lazily) and in a key
+// (decoded while parsing), against the rune it denotes (a lone surrogate reads as U+FFFD); surrogate pairs and a high surrogate
+// followed by another escape at the boundaries, against encoding/json; the code units next to the UTF-8 length boundaries also go
+// through the model.
+func escapeSweep(o *Out, one func(data []byte, probe bool)) {
+	for u := 0; u < 0x10000; u++ {
+		esc := fmt.Sprintf("\\u%04x", u)
+		if u&1 == 1 {
+			esc = fmt.Sprintf("\\u%04X", u)
+		}
+		want := string(rune(u))
+		doc := []byte(`["a` + esc + `b",{"k` + esc + `":0}]`)
+		o.Check("C02", "every-u-escape")
+		root, err := ajson.Unmarshal(doc)
+		if err != nil {
+			o.Fail("C02", "every-u-escape", "a text with a \\u escape is rejected", hexOrDash(doc), "accepted", err.Error())
+			continue
+		}
+		if s, err := root.MustIndex(0).GetString(); err != nil || s != "a"+want+"b" {
+			o.Fail("C02", "every-u-escape", "a \\u escape in a string value does not read as the character it denotes", hexOrDash(doc), hexOrDash([]byte("a"+want+"b")), fmt.Sprint(hexOrDash([]byte(s)), err))
+		}
+		if keys := root.MustIndex(1).Keys(); len(keys) != 1 || keys[0] != "k"+want {
+			o.Fail("C02", "every-u-escape", "a \\u escape in an object key does not read as the character it denotes", hexOrDash(doc), hexOrDash([]byte("k"+want)), fmt.Sprint(keys))
+		}
+	}
+	for _, u := range []int{0, 0x1f, 0x20, 0x22, 0x5c, 0x7e, 0x7f, 0x80, 0x81, 0xff, 0x100, 0x7fe, 0x7ff, 0x800, 0x801, 0xd7ff, 0xd800, 0xdbff, 0xdc00, 0xdfff, 0xe000, 0xfffd, 0xfffe, 0xffff} {
+		one([]byte(fmt.Sprintf(`["x\u%04xy"]`, u)), true)
+		one([]byte(fmt.Sprintf(`{"\u%04X":"\u%04x"}`, u, u)), true)
+	}
+	his := []int{0xd800, 0xd801, 0xd83d, 0xdbfe, 0xdbff}
+	seconds := []int{0xdc00, 0xdc01, 0xde00, 0xdffe, 0xdfff, 0xd800, 0xdbff, 0x41, 0x80, 0xe000, 0xffff}
+	for _, hi := range his {
+		for _, lo := range seconds {
+			for _, tail := range []string{"", "z", "\\n"} {
+				one([]byte(fmt.Sprintf(`["\u%04x\u%04x%s",{"\u%04X\u%04X%s":1}]`, hi, lo, tail, hi, lo, tail)), true)
+			}
+		}
 	}
 }
 
